@@ -1,0 +1,11 @@
+// +build verif
+
+package cluster
+
+import "github.com/tikv/pd/server/core"
+
+// VerifProcessRegionHeartbeat exports processRegionHeartbeat for the verification harness
+// (/verif, property C06): HandleRegionHeartbeat additionally needs a running coordinator.
+func (c *RaftCluster) VerifProcessRegionHeartbeat(region *core.RegionInfo) error {
+	return c.processRegionHeartbeat(region)
+}
